@@ -601,6 +601,9 @@ func genC1BaseKind(t *Tape, allowExc bool, kind int) (sc *C1, ok bool) {
 		SmallReq(&sc.Req) // short replies: every cut position and prefix length is hit densely
 	}
 	sc.Unit = byte(1 + t.Choose(247))
+	if t.Chance(1, 10) {
+		sc.Unit = []byte{0, 255, 248, 1}[t.Choose(4)] // 0 and 248-255 are unit ids on the wire like any other (gateways use them); a device that answers is answered for
+	}
 	sc.TID = uint16(1 + t.Choose(65535))
 	lr, err := BuildLibRequest(sc.Req, sc.Unit, sc.TID, sc.Kind.Framing())
 	if err != nil {
